@@ -6,6 +6,17 @@
 // client transport, or speak the hop / stop protocols by hand (byzantine source / destination, exact
 // byte accounting). A three-valued reference model (model_test.go) says which answers are allowed.
 //
+// Warm / cold (drawn, 1 run in 3 cold): warm runs connect every client to the relay and let identify finish before
+// the history starts and reconnect an actor (and wait for quiescence) before its request; cold runs do neither: a
+// client only knows the relay's address, its request (client.Reserve / NewStream) dials by itself, so the relay
+// meets the request while identify and the connection manager's Connected notification are still under way, the
+// prologue reservations may already carry the fault (first hop stream, first entry of the constraints, first
+// rcmgr scopes of a peer), and an I/O fault can sit on the connection the request is about to open. No oracle needs
+// the warm-up; only the source IP of a not-yet-connected client is taken from its dialer instead of from the relay.
+// Observation calls (service scope Stat, GetTagInfo, ConnsToPeer, Connectedness, a Disconnected notifiee) are
+// read-only in the code under test; the relay's lazy clean-ups (constraints.cleanup, gc) run only inside workload
+// operations and on its own ticker.
+//
 // Files: gen_test.go (what a tape draws), world_test.go (population, raw stop handler, fault arming),
 // ops_test.go (operations + oracles + audits), batch_test.go (concurrent batches), raw_test.go (hand-written
 // protocol speakers, voucher verification), rcscope_test.go (refusals in the relay's service scope).
